@@ -104,6 +104,10 @@ def programs(tier, seed):
          ["and", ["q", "?x", "?y"], ["q", "?y", "?w"], ["not", ["q", "?w", "?x"]]]),
         (P2, ["and", ["forall", ["?z", "-", "t1"], ["or", ["q", "?z", "?x"], ["q", "?z", "?y"]]]],
          ["and", ["forall", ["?z", "-", "t1"], ["when", ["and", ["q", "?x", "?z"], ["q", "?y", "?z"]], ["and", ["not", ["q", "?x", "?z"]]]]]]),
+        # a quantified effect / precondition whose variable has the name of a parameter: a renaming that maps the other parameter
+        # onto that name must not let the quantifier capture it
+        (P2, ["and", ["q", "?x", "?y"]], ["and", ["forall", ["?x", "-", "t1"], ["when", ["p", "?y"], ["not", ["p", "?x"]]]]]),
+        (P2, ["and", ["forall", ["?y", "-", "t1"], ["or", ["q", "?x", "?y"], ["p", "?y"]]]], ["and", ["p", "?y"]]),
     ]
     for pl, pre, eff in fixed:
         out.append((pl, True, pre, eff))
